@@ -155,7 +155,7 @@ fn rand_path(r: &mut Rng, s: &SPdb, depth: usize) -> Vec<usize> {
 fn pk<'a>(r: &mut Rng, xs: &[&'a str]) -> &'a str { xs[r.below(xs.len())] }
 fn ps(p: &[usize]) -> String { p.iter().map(|x| x.to_string()).collect::<Vec<_>>().join(" ") }
 
-const RAW_IDS: &[&str] = &["A", "b", " C ", "", "  ", "x\u{e9}", "ALA", "gly", "0AF", "A\u{7}", "LONGNAME"];
+const RAW_IDS: &[&str] = &["A", "b", " C ", "", "  ", "x\u{e9}", "ALA", "gly", "0AF", "A\u{7}", "LONGNAME", "A\u{1f}", "A\u{7f}", "~A"];
 const NUMS: &[&str] = &["0", "1500000", "-2250000", "999990000", "nan", "inf", "-inf", "-10000"];
 
 fn rand_pred(r: &mut Rng, level: char) -> String {
